@@ -86,7 +86,7 @@ CLAIMS["C18"] = ("other", "MIR unwind-edge analysis (cleanup paths, drop flags b
     "every cleanup path; no user code (directly or via callees) runs inside the manually released tree write-lock region; retain "
     "predicates run under no lock; no shared write or retire precedes the callback inside its critical section, so a panic leaves the "
     "entry as found; no callback runs between an unlink and its count adjustment; no lock acquisition propagates poisoning (a std lock whose "
-    "LockResult is unwrapped would make every later operation panic after one panicking callback); thread-local state changed around a callback is restored on the unwind path too. Unwinding out of a caller-supplied closure retires, frees and writes nothing (U8); a panic that is caught (catch_unwind) and re-raised later is followed by no write, retire, unlink or count adjustment either (U9). Not decided: observable state of later operations on concrete histories. No value dropped while unwinding out of a callback has a Drop impl that can panic (U10).",
+    "LockResult is unwrapped would make every later operation panic after one panicking callback); thread-local state changed around a callback is restored on the unwind path too. Unwinding out of a caller-supplied closure retires, frees and writes nothing (U8); a panic that is caught (catch_unwind) and re-raised later is followed by no write, retire, unlink or count adjustment either (U9). Not decided: observable state of later operations on concrete histories. No value dropped while unwinding out of a callback has a Drop impl that can panic (U10). A removal decided by retain / retain_force is carried out before the predicate runs again (U11).",
     "DESIGN.md §4 C18", TRUST)
 
 CLAIMS["C16"] = ("proof", "signature (lifetime) rule over the type-checked API + compile-fail witnesses with compiling twins judged by rustc",
